@@ -15,7 +15,7 @@ class DefNet:
     def __init__(self, name):
         self.name = name
         self.pins = []
-        self.routed = []
+        self.routed = []  # the wires of all wiring statements (+ COVER | FIXED | ROUTED | NOSHIELD) in file order
 
     @property
     def wires(self):
@@ -32,6 +32,7 @@ class DefNet:
 
 class DefWire:
     def __init__(self):
+        self.kind = 'routed'  # keyword of the wiring statement: 'cover', 'fixed', 'routed' or 'noshield'
         self.layer = None
         self.width = None
         self.points = []
@@ -96,12 +97,15 @@ class DefTransformer(Transformer):
     def design(self, args): self.def_file.design = args[0].value
     def point(self, args): return tuple(int(arg.value) if arg != '*' else None for arg in args)
     def do_step(self, args): return tuple(map(int, args))
-    def spnet_wires(self, args): return args[0].lower(), args[1:]
-    def net_wires(self, args): return args[0].lower(), args[1:]
+    def spnet_wires(self, args): return self.net_wires(args)
     def sppoints(self, args): return args
     def points(self, args): return args
     def net_pin(self, args): return '__pin__', (args[0].value, args[1].value)
     def net_opt(self, args): return args[0].lower(), args[1].value
+
+    def net_wires(self, args):
+        for wire in args[1:]: wire.kind = args[0].lower()
+        return '__wires__', args[1:]
 
     def file_stmt(self, args):
         value = args[1].value
@@ -164,6 +168,7 @@ class DefTransformer(Transformer):
         dnet = DefNet(args[0].value)
         for arg in args[1:]:
             if arg[0] == '__pin__': dnet.pins.append(arg[1])
+            elif arg[0] == '__wires__': dnet.routed.extend(arg[1])  # a net may have several wiring statements
             else: setattr(dnet, arg[0], arg[1])
         self.def_file.specialnets[dnet.name] = dnet
 
@@ -171,6 +176,7 @@ class DefTransformer(Transformer):
         dnet = DefNet(args[0].value)
         for arg in args[1:]:
             if arg[0] == '__pin__': dnet.pins.append(arg[1])
+            elif arg[0] == '__wires__': dnet.routed.extend(arg[1])  # a net may have several wiring statements
             else: setattr(dnet, arg[0], arg[1])
         self.def_file.nets[dnet.name] = dnet
 
